@@ -223,6 +223,9 @@ void list_output_65816(
 
   bytes[0] = 0;
 
+  // A .repeat block is listed as one range: show what fits in bytes[].
+  if (count > 10) { count = 10; }
+
   for (n = 0; n < count; n++)
   {
     char temp[4];
